@@ -82,7 +82,7 @@ def cases(tier: str, seed: int) -> List[Dict[str, Any]]:
         for fi, fo in itertools.product([1, 2, 3, 5, 16, 31], [1, 3, 8]):
             for (d, form) in conts:
                 for opt in ("Adam", "AdamW"):
-                    for variant in ("default_wd", "mixed_group"):
+                    for variant in ("default_wd", "mixed_group", "generator_groups", "generator_bare"):
                         out.append({"kind": kind, "fin": fi, "fout": fo, "k": 3 if kind == "Conv1d" else None, "depth": d, "form": form, "eta": 0.3,
                                     "opt": opt, "constraint": "default", "seed": seed, "variant": variant})
     # a single example passed unbatched, (C, L) instead of (N, C, L)
@@ -194,6 +194,12 @@ def run_case(case: Dict[str, Any]) -> Dict[str, Any]:
             elif case.get("variant") == "mixed_group":
                 plain_p = torch.nn.Parameter(torch.randn(4, dtype=torch.float64))
                 opt = Opt([{"params": plist + [plain_p]}], lr=lr_arg, eps=0.0, weight_decay=0.0, allow_non_unit_scaling_params=True)
+            elif case.get("variant") == "generator_groups":
+                # the idiomatic {"params": module.parameters()} (a one-shot generator) next to a list-valued group
+                other = uu.Parameter(torch.randn(7, 3, dtype=torch.float64), "weight")
+                opt = Opt([{"params": holder.parameters()}, {"params": [other], "lr": 0.5}], lr=lr_arg, eps=0.0, weight_decay=0.0)
+            elif case.get("variant") == "generator_bare":
+                opt = Opt(holder.parameters(), lr=lr_arg, eps=0.0, weight_decay=0.0)
             else:
                 opt = Opt(plist, lr=lr_arg, eps=0.0, weight_decay=0.0)
             if frozen_at_build:
